@@ -176,7 +176,9 @@ fn gen_shape(w: &mut World, p: &Profile) -> Shape {
             Cont::Tuple => w.below(13),
             // (257 crosses the u8 boundary of per-child indices; drawn rarely because such cases are heavy)
             Cont::Array => {
-                if !p.small && w.chance(2) {
+                // (stream families only in the std configuration: without sub-wakers every poll re-polls all 257 inputs,
+                // which makes such executions thousands of times heavier than the rest without adding anything)
+                if !p.small && w.chance(2) && (cfg!(feature = "fc-std") || !fam.stream_kids()) {
                     257
                 } else {
                     pick(w, &ARRAY_LENS[..8])
@@ -429,7 +431,8 @@ pub fn run_case(p: &Profile, case: &CaseA) -> ExecOut {
     while root.is_some() {
         steps += 1;
         PROGRESS.fetch_add(1, std::sync::atomic::Ordering::Relaxed);
-        if steps > STEP_CAP {
+        // (the budget grows with the number of leaves: a 257-input merge needs thousands of legitimate steps)
+        if steps > STEP_CAP + 200 * case.leaves.len() {
             out.inconclusive = Some("harness step budget exceeded".into());
             break;
         }
